@@ -11,6 +11,7 @@ import (
 	"strconv"
 	"strings"
 	"sync"
+	"sync/atomic"
 	"time"
 
 	"github.com/php-any/origami/data"
@@ -85,7 +86,11 @@ func c10Do(vm *runtime.VM, o c10Op, idents *sync.Map) string {
 		}
 		return "ok"
 	case "getClass":
-		if c, ok := vm.GetClass(o.name); ok {
+		name := o.name
+		if o.arg == "ci" { // case-insensitive fallback of class lookup
+			name = strings.ToLower(name)
+		}
+		if c, ok := vm.GetClass(name); ok {
 			return fileOf(c.GetFrom())
 		}
 		return "none"
@@ -147,9 +152,18 @@ func c10Group(op string) string {
 	return "glob"
 }
 
+// c10Tick makes goroutines converge on the same fresh names at about the same time: the name index
+// advances once every few calls of the whole process, so registrations of a not-yet-registered
+// name overlap (the window in which "both registrants are told ok" can happen).
+var c10Tick atomic.Int64
+var c10Window int64 = 24
+
 func c10RandOp(rng *rand.Rand, mix []string, names int, fresh *int) c10Op {
 	op := mix[rng.Intn(len(mix))]
 	name := fmt.Sprintf("N%d", rng.Intn(names))
+	if fresh == nil && rng.Intn(3) > 0 {
+		name = fmt.Sprintf("T%d", c10Tick.Add(1)/c10Window)
+	}
 	if fresh != nil && strings.HasPrefix(op, "add") && rng.Intn(2) == 0 {
 		// fresh names keep the writers writing (a duplicate name stops writing after the first round)
 		*fresh++
@@ -161,6 +175,10 @@ func c10RandOp(rng *rand.Rand, mix []string, names int, fresh *int) c10Op {
 		arg = fmt.Sprintf("f%d", 1+rng.Intn(2))
 	case "setConst":
 		arg = fmt.Sprintf("v%d", 1+rng.Intn(3))
+	case "getClass":
+		if rng.Intn(3) == 0 {
+			arg = "ci"
+		}
 	}
 	return c10Op{op, name, arg}
 }
@@ -184,7 +202,14 @@ func c10RaceWorker() {
 			rng := rand.New(rand.NewSource(seed*1000 + int64(i)))
 			fresh := i * 1000000
 			for k := 0; k < nops; k++ {
-				c10Do(vm, c10RandOp(rng, mix, 12, &fresh), nil)
+				o := c10RandOp(rng, mix, 12, &fresh)
+				if rng.Intn(2) == 0 {
+					// every goroutine walks the same sequence of names at its own pace (no shared counter:
+					// an atomic would order the goroutines and hide races): definitions, duplicates and
+					// (case-folded) lookups of a name that has just appeared overlap
+					o.name = fmt.Sprintf("T%d", k/4)
+				}
+				c10Do(vm, o, nil)
 			}
 		}(i)
 	}
@@ -225,7 +250,11 @@ func (r *c10Rec) split() map[string]*history {
 			h = &history{}
 			out[k] = h
 		}
-		h.Ops = append(h.Ops, histOp{o.op, o.arg, r.res[i]})
+		arg := o.arg
+		if o.op == "getClass" {
+			arg = "" // exact and case-folded lookups are the same reference operation
+		}
+		h.Ops = append(h.Ops, histOp{o.op, arg, r.res[i]})
 		idmap[i+1] = len(h.Ops)
 	}
 	for _, e := range r.ev {
@@ -264,7 +293,7 @@ func C10(c *Ctx) *kf.Report {
 	// 2. pass 1: race detector, one subprocess per configuration
 	bin := strings.TrimSuffix(c.Self, "vcheck") + "vcheck-race"
 	type rcfg struct {
-		mix            string
+		mix           string
 		g, ops, procs int
 	}
 	var rcfgs []rcfg
